@@ -487,6 +487,13 @@ func (s *Service) processWriteShardRequest(buf []byte) error {
 	}
 
 	points := req.Points()
+	for _, p := range points {
+		// A point that could not be parsed is nil.
+		if p == nil {
+			atomic.AddInt64(&s.stats.WriteShardFail, 1)
+			return fmt.Errorf("write shard %d: request contains an unparsable point", req.ShardID())
+		}
+	}
 	atomic.AddInt64(&s.stats.WriteShardPointsReq, int64(len(points)))
 	err := s.TSDBStore.WriteToShard(req.ShardID(), points)
 
